@@ -41,7 +41,7 @@ def py_item(it):
     return "1.5"
 
 
-def rand_items(rnd, sh, malformed=False):
+def rand_items(rnd, sh, malformed=False, p_int=0.35):
     r = len(sh)
     items = []
     n_ell = 1 if rnd.random() < 0.3 else 0
@@ -57,7 +57,7 @@ def rand_items(rnd, sh, malformed=False):
             n_ell = 0
             continue
         n = sh[ax]
-        if rnd.random() < 0.35 and n > 0:
+        if rnd.random() < p_int and n > 0:
             items.append(("int", rnd.randint(-n, n - 1)))
         else:
             a, b, c = rnd.choice(families.slice_alphabet(n))
@@ -108,6 +108,12 @@ def corr_cases(rnd, n_random, exhaustive_1d=True):
         if items is None:
             continue
         add(sh, items)
+    # ranks 4-5 with MANY integer entries separated by slices / an ellipsis (the lowering groups integer axes)
+    for _ in range(max(60, n_random // 4)):
+        sh = [rnd.choice([1, 2, 2, 3]) for _ in range(rnd.randint(4, 5))]
+        items = rand_items(rnd, sh, p_int=0.7)
+        if items is not None:
+            add(sh, items)
     return cases
 
 
